@@ -475,7 +475,8 @@ theorem prices_whenever_unmodified (s0 : State) (hi : PricesInv s0) (ops : List 
 /-! ### genesis -/
 
 theorem genesis_nodes (g : Genesis) :
-    g.state.nodeActive = [] ∧ g.state.nodeInactive = [] ∧ g.state.params = g.params ∧ g.state.modified = {} := by
+    g.state.nodeActive = [] ∧ g.state.nodeInactive = [] ∧ g.state.params = g.params ∧
+      g.state.modified = { maxGB := true, minGB := true, maxHr := true, minHr := true } := by
   unfold Genesis.state
   have : ∀ (l : List (Addr × Denom × Int)) (s0 : State),
       (l.foldl addBalance s0).nodeActive = s0.nodeActive ∧ (l.foldl addBalance s0).nodeInactive = s0.nodeInactive ∧
